@@ -175,7 +175,10 @@ impl<'a> Gen<'a> {
     }
 }
 
-pub fn gen_replay(seed: u64, focus: &str) -> Replay {
+pub fn gen_replay(seed: u64, focus_arg: &str) -> Replay {
+    // "C01+long" (thorough tier): some runs are much longer, so that hierarchies get bigger
+    let long = focus_arg.ends_with("+long");
+    let focus = focus_arg.trim_end_matches("+long");
     let mut rng = Rng::new(seed ^ 0x5eed_0000_0000_0000);
     let view = match if focus == "C20" { 2 } else { rng.weighted(&[40, 40, 20]) } {
         0 => {
@@ -211,6 +214,8 @@ pub fn gen_replay(seed: u64, focus: &str) -> Replay {
     let len = match rng.below(100) {
         0..=49 => rng.range(3, 12),
         50..=84 => rng.range(12, 40),
+        85..=94 => rng.range(40, 120),
+        _ if long => rng.range(120, 400),
         _ => rng.range(40, 120),
     } as usize;
     let mut sizes: Vec<Size> = Size::ALL.iter().cloned().filter(|_| rng.chance(75)).collect();
